@@ -184,8 +184,8 @@ class Rewriter:
             if '/' in name:
                 name, ar_ = name.split('/')
                 arity = int(ar_)
-            if '::' in name:
-                rx = re.compile(r'\b%s\s*\(' % re.escape(name).replace('::', r'\s*::\s*'))
+            if '::' in name or '.' in name:
+                rx = re.compile(r'\b%s\s*\(' % re.escape(name).replace('::', r'\s*::\s*').replace(r'\.', r'\s*\.\s*'))
             else:
                 rx = re.compile(r'(?:\.|::)\s*%s\s*\(' % re.escape(name))
             pos = 0
@@ -262,7 +262,10 @@ def loop_body_open(m, kwpos, kw):
         if ch in '([':
             j = match_close(m, j)
         elif ch == '{':
-            return j
+            if re.search(r'\bunsafe\s*$', m[:j]):
+                j = match_close(m, j)      # `unsafe { .. }` inside the loop header is an expression, not the body
+            else:
+                return j
         j += 1
     raise ExtractError('loop body not found')
 
